@@ -202,6 +202,9 @@ func (m *Machine) symLoad(fr *frame, p SymPtr) Value {
 		m.abort("internal", "symLoad from empty window")
 	}
 	w := p.Idx.W
+	if v, ok := m.cltLoad(p.Idx, func(k int) Value { return walk(p.Elems[k], p.Path) }, n); ok {
+		return copyVal(v)
+	}
 	res := copyVal(walk(p.Elems[n-1], p.Path))
 	ok := true
 	for k := n - 2; k >= 0 && ok; k-- {
@@ -535,6 +538,9 @@ func (m *Machine) strIndex(fr *frame, s Str, idx T, it types.Type) Value {
 	if n > 4096 {
 		m.unsupported("symbolic index into string of %d bytes", n)
 	}
+	if v, ok := m.cltLoad(idx, func(k int) Value { return m.strAt(s, k) }, n); ok {
+		return v
+	}
 	res := m.strAt(s, n-1)
 	for k := n - 2; k >= 0; k-- {
 		res = m.F.Ite(m.F.Eq(idx, m.F.Const(idx.W, uint64(k))), m.strAt(s, k), res)
@@ -591,4 +597,43 @@ func (m *Machine) slice(fr *frame, in *ssa.Slice) Value {
 		m.unsupported("slice of poison: %s", a.Why)
 	}
 	panic(fmt.Sprintf("slice of %T", x))
+}
+
+
+// cltLoad reads elem(idx) when idx is an ite tree with constant leaves (the
+// result of an earlier table lookup): the lookup is pushed into the leaves, so
+// chained table lookups do not build a fresh n-way chain per level.
+func (m *Machine) cltLoad(idx T, elem func(k int) Value, n int) (Value, bool) {
+	if !m.F.IsCLT(idx) {
+		return nil, false
+	}
+	memo := map[T]Value{}
+	var rec func(x T) (Value, bool)
+	rec = func(x T) (Value, bool) {
+		if x.IsConst() {
+			if x.Val >= uint64(n) {
+				return nil, false // out-of-range leaf: excluded by the bounds check's path condition, but do not guess
+			}
+			return elem(int(x.Val)), true
+		}
+		if v, ok := memo[x]; ok {
+			return v, true
+		}
+		c, a, b := m.F.CLTParts(x)
+		va, ok := rec(a)
+		if !ok {
+			return nil, false
+		}
+		vb, ok := rec(b)
+		if !ok {
+			return nil, false
+		}
+		v, ok := m.ite(c, va, vb)
+		if !ok {
+			return nil, false
+		}
+		memo[x] = v
+		return v, true
+	}
+	return rec(idx)
 }
